@@ -52,6 +52,8 @@ type wspec struct {
 	lines [][]ch // recorded when drawn (scanner output at the width received)
 	drawn bool
 	bad   bool // the recording scanner panicked or ran away
+
+	live vxfw.Widget // the widget object built from this spec (hist stream: fields are changed on it)
 }
 
 type env struct {
@@ -150,6 +152,7 @@ func (w *wspec) build(e *env) vxfw.Widget {
 	case "text":
 		t := text.New(w.Content)
 		t.Softwrap = w.Soft
+		w.live = t
 		return &recorder{t, w, e}
 	case "rich":
 		segs := make([]vaxis.Segment, len(w.Segs))
@@ -158,21 +161,27 @@ func (w *wspec) build(e *env) vxfw.Widget {
 		}
 		t := richtext.New(segs)
 		t.Softwrap = w.Soft
+		w.live = t
 		return &recorder{t, w, e}
 	case "center":
-		return &center.Center{Child: w.Child.build(e)}
+		c := &center.Center{Child: w.Child.build(e)}
+		w.live = c
+		return c
 	case "button":
-		return button.New(w.Content, func() (vxfw.Command, error) { return nil, nil })
+		b := button.New(w.Content, func() (vxfw.Command, error) { return nil, nil })
+		w.live = b
+		return b
 	case "field":
 		tf := textfield.New()
 		tf.Value = w.Content
+		w.live = tf
 		return &recorder{tf, w, e}
 	case "list":
 		ws := make([]vxfw.Widget, len(w.Items))
 		for i, it := range w.Items {
 			ws[i] = it.build(e)
 		}
-		return &list.Dynamic{
+		d := &list.Dynamic{
 			Builder: func(i uint, cursor uint) vxfw.Widget {
 				if i >= uint(len(ws)) {
 					return nil
@@ -182,6 +191,8 @@ func (w *wspec) build(e *env) vxfw.Widget {
 			DrawCursor: w.Cursor,
 			Gap:        w.Gap,
 		}
+		w.live = d
+		return d
 	}
 	panic("kind")
 }
@@ -663,7 +674,7 @@ func (w *wspec) hasCursorList() bool {
 
 func deepCopy(w *wspec) *wspec {
 	c := *w
-	c.lines, c.drawn, c.bad = nil, false, false
+	c.lines, c.drawn, c.bad, c.live = nil, false, false, nil
 	if w.Child != nil {
 		c.Child = deepCopy(w.Child)
 	}
